@@ -208,7 +208,8 @@ class Gen(object):
             terms_left[0] = max(terms_left[0], 1)
         if r.random() < 0.4:
             q = r.choice([1, -1, 2, -2, 3, -3, 4, -4, 10, -12, 25])
-            toks.append({"k": "chg", "q": q, "t": ("+" if q > 0 else "-") + ("" if abs(q) == 1 else str(abs(q)))})
+            mag = "" if abs(q) == 1 and r.random() < 0.7 else str(abs(q))     # a unit charge may be spelled "+1"
+            toks.append({"k": "chg", "q": q, "t": ("+" if q > 0 else "-") + mag})
         if r.random() < 0.3:
             toks.append({"k": "suf", "t": r.choice(SUFFIXES)})
         toks.append({"k": "finish"})
@@ -301,7 +302,7 @@ def lex(text, symbols):
     m = re.search(r"([+-])(\d*)$", s)
     if m:
         mag = m.group(2)
-        if mag.startswith("0") or mag == "1":
+        if mag.startswith("0"):
             return None
         q = int(mag) if mag else 1
         q = q if m.group(1) == "+" else -q
